@@ -59,7 +59,11 @@ type fileSpec struct {
 }
 
 type scenario struct {
-	Cmd     string // "fmt" | "render"
+	// TmpElsewhere: the process's TMPDIR is a directory on another (simulated) file system
+	// than the one holding the sources and outputs, as with /tmp on tmpfs or a container
+	// volume: renames between the two fail with EXDEV.
+	TmpElsewhere bool
+	Cmd          string // "fmt" | "render"
 	Args    []string
 	Files   []fileSpec
 	Targets []string // names of files the property speaks about
@@ -118,6 +122,15 @@ func genDiagram(tp *tape.Tape) string {
 }
 
 func genScenario(tp *tape.Tape, idx int, thorough bool) scenario {
+	sc := genScenario1(tp, idx, thorough)
+	sc.TmpElsewhere = tp.Chance(1, 2, "layout.tmp-elsewhere")
+	if sc.TmpElsewhere {
+		sc.Desc += " [TMPDIR on another file system]"
+	}
+	return sc
+}
+
+func genScenario1(tp *tape.Tape, idx int, thorough bool) scenario {
 	loadCorpus()
 	if tp.Weighted([]int{3, 2}, "cmd") == 0 {
 		sc := scenario{Cmd: "fmt"}
@@ -193,11 +206,15 @@ func tmpRoot() string {
 	return os.TempDir()
 }
 
+func otherFS(dir string) string { return dir + ".tmpfs" }
+
 func restore(dir string, sc scenario) error {
-	ents, _ := os.ReadDir(dir)
-	for _, e := range ents {
-		if err := os.RemoveAll(filepath.Join(dir, e.Name())); err != nil {
-			return err
+	for _, d := range []string{dir, otherFS(dir)} {
+		ents, _ := os.ReadDir(d)
+		for _, e := range ents {
+			if err := os.RemoveAll(filepath.Join(d, e.Name())); err != nil {
+				return err
+			}
 		}
 	}
 	for _, f := range sc.Files {
@@ -238,7 +255,19 @@ type outcome struct {
 // execute runs the command once. crashAt = 0: no crash. midK > 0: the crash happens inside
 // write number crashAt after midK bytes.
 func execute(dir string, sc scenario, crashAt, midK int) outcome {
-	fs := &simfs.FS{Root: dir, Record: true}
+	fs := &simfs.FS{Root: dir, Other: otherFS(dir), CrossDevice: sc.TmpElsewhere, Record: true}
+	// The process's temporary directory is always a directory of its own, outside the
+	// directory of the sources and outputs; whether it is another file system is the
+	// scenario's layout.
+	oldTmp, hadTmp := os.LookupEnv("TMPDIR")
+	os.Setenv("TMPDIR", otherFS(dir))
+	defer func() {
+		if hadTmp {
+			os.Setenv("TMPDIR", oldTmp)
+		} else {
+			os.Unsetenv("TMPDIR")
+		}
+	}()
 	if crashAt > 0 {
 		fs.Handler = func(op simfs.Op) simfs.Decision {
 			if op.Seq != crashAt {
@@ -281,13 +310,20 @@ func hash64(parts ...any) uint64 {
 	return h.Sum64()
 }
 
-var tmpName = regexp.MustCompile(`/tmp-([^/]*)-[0-9]+`)
+var (
+	tmpName  = regexp.MustCompile(`/tmp-([^/]*)-[0-9]+`)
+	tmpName2 = regexp.MustCompile(`([-._])[0-9]{6,}`) // os.CreateTemp's random part in any other pattern
+)
+
+func normTmp(s string) string {
+	return tmpName2.ReplaceAllString(tmpName.ReplaceAllString(s, "/tmp-$1-N"), "${1}N")
+}
 
 // opKey identifies an operation; the random suffix of CreateTemp names is normalised (it
 // depends on how many maps earlier code created, which process-wide caches change
 // between the first and later runs).
 func opKey(o simfs.Op) string {
-	return fmt.Sprintf("%s|%s|%s|%d|%d", o.Name, tmpName.ReplaceAllString(o.Path, "/tmp-$1-N"), tmpName.ReplaceAllString(o.Path2, "/tmp-$1-N"), o.N, o.Flags)
+	return fmt.Sprintf("%s|%s|%s|%d|%d", o.Name, normTmp(o.Path), normTmp(o.Path2), o.N, o.Flags)
 }
 
 type sample struct {
@@ -310,6 +346,11 @@ func Run(cfg harness.Config, idx int, tp *tape.Tape) harness.Result {
 	if rp, err := filepath.EvalSymlinks(dir); err == nil {
 		dir = rp
 	}
+	if err := os.MkdirAll(otherFS(dir), 0755); err != nil {
+		res.HarnessError = err.Error()
+		return res
+	}
+	defer os.RemoveAll(otherFS(dir))
 	res.Tracef("scenario: d2 %s   (%s)", strings.Join(sc.Args, " "), sc.Desc)
 
 	// ---- uninterrupted run: operation list and the new content
@@ -345,7 +386,7 @@ func Run(cfg harness.Config, idx int, tp *tape.Tape) harness.Result {
 		}
 	}
 	for _, o := range dry.ops {
-		res.Tracef("op %s", strings.Replace(tmpName.ReplaceAllString(o.String(), "/tmp-$1-N"), dir, "$SANDBOX", -1))
+		res.Tracef("op %s", strings.Replace(normTmp(o.String()), dir, "$SANDBOX", -1))
 	}
 	if !changed {
 		res.Probe("no_rewrite_needed")
@@ -399,7 +440,7 @@ func Run(cfg harness.Config, idx int, tp *tape.Tape) harness.Result {
 		}
 		var what string
 		if pt.at <= len(dry.ops) {
-			opS := strings.Replace(tmpName.ReplaceAllString(dry.ops[pt.at-1].String(), "/tmp-$1-N"), dir, "$SANDBOX", -1)
+			opS := strings.Replace(normTmp(dry.ops[pt.at-1].String()), dir, "$SANDBOX", -1)
 			what = "killed just before " + opS
 			if pt.mid > 0 {
 				what = fmt.Sprintf("killed inside %s after %d bytes", opS, pt.mid)
@@ -453,7 +494,9 @@ func Run(cfg harness.Config, idx int, tp *tape.Tape) harness.Result {
 			break
 		}
 	}
-	if res.Oracle == "" && res.HarnessError == "" && crossValidateWanted(cfg) {
+	// (The real kernel cannot be told that the two directories are different mounts, so
+	// the comparison with the real binary is made for single-file-system layouts only.)
+	if res.Oracle == "" && res.HarnessError == "" && !sc.TmpElsewhere && crossValidateWanted(cfg) {
 		crossValidate(&res, cfg, dir, sc, dry, newContent, oldContent, simClass)
 	}
 	res.Evals = executed
@@ -505,7 +548,7 @@ func realTrace(d2bin, dir string, args []string) ([]realOp, error) {
 	defer os.Remove(out)
 	cmd := exec.Command("strace", append([]string{"-f", "-qq", "-o", out, "-e", "trace=openat,close,write,pwrite64,renameat,renameat2,unlinkat,mkdirat,ftruncate,fchmod,fchmodat,utimensat,linkat,symlinkat", d2bin}, args...)...)
 	cmd.Dir = dir
-	cmd.Env = append(os.Environ(), "HOME=/nonexistent-verif-home", "BROWSER=0", "NO_COLOR=1")
+	cmd.Env = append(os.Environ(), "HOME=/nonexistent-verif-home", "BROWSER=0", "NO_COLOR=1", "TMPDIR="+otherFS(dir))
 	if o, err := cmd.CombinedOutput(); err != nil {
 		return nil, fmt.Errorf("strace run failed: %v: %s", err, o)
 	}
@@ -544,7 +587,7 @@ func realTrace(d2bin, dir string, args []string) ([]realOp, error) {
 			}
 			return p
 		}
-		in := func(p string) bool { return strings.HasPrefix(p, dir+"/") }
+		in := func(p string) bool { return strings.HasPrefix(p, dir+"/") || strings.HasPrefix(p, otherFS(dir)+"/") }
 		switch name {
 		case "openat":
 			if len(strs) > 0 && ret != "-1" && ret != "?" {
@@ -601,7 +644,7 @@ func crossValidate(res *harness.Result, cfg harness.Config, dir string, sc scena
 			simOps = append(simOps, o)
 		}
 	}
-	norm := func(s string) string { return tmpName.ReplaceAllString(s, "/tmp-$1-N") }
+	norm := normTmp
 	var a, b []string
 	for _, o := range simOps {
 		p := o.Path
@@ -639,7 +682,7 @@ func crossValidate(res *harness.Result, cfg harness.Config, dir string, sc scena
 		}
 		cmd := exec.Command("strace", append([]string{"-f", "-qq", "-o", "/dev/null", "-e", fmt.Sprintf("inject=%s:signal=SIGKILL:when=%d", sysname, ro.index), d2bin}, sc.Args...)...)
 		cmd.Dir = dir
-		cmd.Env = append(os.Environ(), "HOME=/nonexistent-verif-home", "BROWSER=0", "NO_COLOR=1")
+		cmd.Env = append(os.Environ(), "HOME=/nonexistent-verif-home", "BROWSER=0", "NO_COLOR=1", "TMPDIR="+otherFS(dir))
 		cmd.Run()
 		class := "other"
 		bts, err := os.ReadFile(filepath.Join(dir, target))
